@@ -61,7 +61,13 @@ elif sys.argv[1] == 'run':
         if not meta.get('confirmed'):
             print(d, 'not confirmed, skipped')
             continue
-        r = subprocess.run([ROOT + '/tools/run_seed.sh', os.path.join(d, 'patch.diff')] + props, stdout=subprocess.PIPE, stderr=subprocess.STDOUT, timeout=6000)
+        if subprocess.run(['git', '-C', '/repo', 'apply', '--check', os.path.join(d, 'patch.diff')], stderr=subprocess.DEVNULL).returncode != 0:
+            meta['applies_to_current_repo'] = False
+            json.dump(meta, open(os.path.join(d, 'meta.json'), 'w'), indent=1)
+            print(os.path.basename(d), 'does not apply to the current /repo (superseded by a repair); earlier result kept')
+            continue
+        meta['applies_to_current_repo'] = True
+        r = subprocess.run([ROOT + '/tools/run_seed.sh', os.path.join(d, 'patch.diff')] + props, stdout=subprocess.PIPE, stderr=subprocess.STDOUT, timeout=9000)
         txt = r.stdout.decode(errors='replace')
         caught = {}
         for p in props:
@@ -69,8 +75,12 @@ elif sys.argv[1] == 'run':
             caught[p] = {'detected': any(x[0] == '1' for x in m),
                          'with_failing_input': any(x[0] == '1' and 'no-failing-input-found' not in x[2].split('VIOLATION')[1] for x in m if 'VIOLATION' in x[2]),
                          'lines': [x[2][:300] for x in m]}
-        meta['checks_run'] = props
-        meta['result'] = caught
+        meta['checks_run'] = sorted(set((meta.get('checks_run') or []) + props))
+        res = meta.get('result') or {}
+        res.update(caught)
+        meta['result'] = res
+        meta['repo_commit'] = subprocess.check_output(['git', '-C', '/repo', 'log', '--format=%h', '-1']).decode().strip()
+        meta['verif_commit'] = subprocess.check_output(['git', '-C', ROOT, 'log', '--format=%h', '-1']).decode().strip()
         meta['ran'] = 'tools/run_seed.sh patch.diff ' + ' '.join(props) + ' (git -C /repo apply; bin/check <prop> --seed 1, then --seed 2 if not detected; git -C /repo checkout -- .)'
         json.dump(meta, open(os.path.join(d, 'meta.json'), 'w'), indent=1)
         print(os.path.basename(d), {p: (c['detected'], c['with_failing_input']) for p, c in caught.items()})
